@@ -22,6 +22,7 @@ class Gen:
         self.in_fn = 0
         self.funcs = []             # (name, param_kinds, ret_kind) visible at top scope chain
         self.planted = None
+        self.loop_nest = 0          # loops enclosing the current point, function boundaries included
         self.retired = []           # names whose scope has ended
         self.reserved = set()       # names captured by functions (re-declaring them would change what a call does: still valid,
                                     # but keep them so the generator's kind tracking stays exact)
@@ -221,7 +222,8 @@ class Gen:
             kind = r.choice(["int", "str", "bool", "ilist", "obj", "int"])
             return [f"print({self.expr(kind)});"]
         if c < 0.42:
-            kind = r.choice(["int", "str", "ilist"])
+            # strings and lists only grow outside loops (a loop whose bound grows inside it multiplies)
+            kind = r.choice(["int", "str", "ilist"]) if self.in_loop == 0 and self.loop_nest == 0 else "int"
             vs = [v for v in self.vars_of(kind) if not v.startswith("c")]
             if vs:
                 v = r.choice(vs)
@@ -248,7 +250,9 @@ class Gen:
             self.declare(cn, "counter")
             n = r.randrange(1, 4)
             self.in_loop += 1
+            self.loop_nest += 1
             body = self.block(depth + 1)
+            self.loop_nest -= 1
             self.in_loop -= 1
             return [f"{cn} := 0;", f"while {cn} < {n} {{"] + self.ind([f"{cn} += 1;"] + body) + ["}"]
         if c < 0.68:
@@ -274,7 +278,9 @@ class Gen:
                 it = "{" + ", ".join(f'"{kk}": {self.int_lit()}' for kk in r.sample(KEYS, r.randrange(1, 4))) + "}"
                 self.declare(k, "str"); self.declare(v, "int")
             self.scopes[-1].pop("_unused", None)
+            self.loop_nest += 1
             body = self.block(depth + 1)
+            self.loop_nest -= 1
             self.scopes.pop()
             self.in_loop -= 1
             return [f"for {tgt} in {it} {{"] + self.ind(body) + ["}"]
@@ -342,7 +348,7 @@ class Gen:
                 self.declare(al, kind)
                 if kind == "ilist":
                     upd = r.choice([f"{al} += [{self.int_lit()}];", f"{al}[0] = {self.int_lit()};", f"{src} += [{self.int_lit()}];",
-                                    f"{al} = {al} + [{self.int_lit()}];"])
+                                    f"{al} = {al} + [{self.int_lit()}];"] if self.loop_nest == 0 else [f"{al}[0] = {self.int_lit()};"])
                 else:
                     upd = r.choice([f'{al}.zz = {self.int_lit()};', f'{src}["yy"] = {self.int_lit()};'])
                 return [f"{al} := {src};", upd, f"print({src});", f"print({al});", f"print({src} === {al});"]
